@@ -188,7 +188,7 @@ def build(tier, repo):
     r5.require(6)
     r6 = chk.rule("C04-R6", "block-offset discipline in cpl/cp/gp", "blocks addressed consistently")
     rc.offsets_rule(r6, w, [("cvxprog", "cpl"), ("cvxprog", "cp.*"), ("cvxprog", "gp.*")])
-    r6.require(20)
+    r6.require(18)
     r7 = chk.rule("C04-R7", "cone-space vectors normed with misc.snrm2/sdot", "documented norms")
     rc.norm_discipline(r7, w, "cvxprog", "cpl")
     r7.require(4)
